@@ -879,8 +879,22 @@ class DocTest:
                             # A failure may be expected if the traceback
                             # matches the part's want statement.
                             exception = sys.exc_info()
-                            traceback.format_exception_only(*exception[:2])
-                            exc_got = traceback.format_exception_only(*exception[:2])[-1]
+                            formatted_ex = traceback.format_exception_only(*exception[:2])
+                            if issubclass(exception[0], SyntaxError):
+                                # Skip the source / caret lines that precede
+                                # the message of a SyntaxError
+                                prefixes = (
+                                    exception[0].__qualname__ + ':',
+                                    exception[0].__module__ + '.' + exception[0].__qualname__ + ':',
+                                )
+                                for index, line in enumerate(formatted_ex):
+                                    if line.startswith(prefixes):
+                                        formatted_ex = formatted_ex[index:]
+                                        break
+                                else:
+                                    formatted_ex = formatted_ex[-1:]
+                            # The message line(s) plus any notes (PEP 678)
+                            exc_got = ''.join(formatted_ex)
                             want = part.want
                             checker.check_exception(exc_got, want, runstate)
                             # The expected traceback is this part's want, so
